@@ -738,3 +738,83 @@ pub fn cachedb_read_policy() -> String {
     out += &format!("[block_hash cached {}] [block_hash_ref cached {}] ", if okc { "ok" } else { "MISMATCH" }, if okc { "ok" } else { "MISMATCH" });
     out
 }
+
+// ---------------------------------------------------------------- cold / warm reporting of load_account, sload and transaction-level pre-warming
+pub fn warm_kernel() -> String {
+    use revm::primitives::{Env, TxKind};
+    use revm::Evm;
+    let mut out = String::new();
+    let pre = address!("0000000000000000000000000000000000000004");
+    let mut warm = HashSet::default();
+    warm.insert(pre);
+    // ---- load_account
+    let mut db = CacheDB::new(EmptyDB::default());
+    db.insert_account_info(CALLER, AccountInfo { nonce: 1, balance: U256::from(5), code_hash: B256::default(), code: None });
+    db.insert_account_storage(CALLER, U256::from(1), U256::from(7)).unwrap();
+    let mut js = JournaledState::new(SpecId::CANCUN, warm.clone());
+    let j0 = js.journal.last().unwrap().len();
+    let c1 = js.load_account(CALLER, &mut db).unwrap().is_cold;
+    let j1 = js.journal.last().unwrap().len();
+    let c2 = js.load_account(CALLER, &mut db).unwrap().is_cold;
+    let j2 = js.journal.last().unwrap().len();
+    let ok = c1 && !c2 && j1 == j0 + 1 && j2 == j1 && matches!(js.journal.last().unwrap()[j0], revm::JournalEntry::AccountWarmed { address } if address == CALLER);
+    out += &format!("[load_account first={} second={} journal={}->{}->{}{}] ", c1, c2, j0, j1, j2, if ok { "" } else { " MISMATCH" });
+    let p1 = js.load_account(pre, &mut db).unwrap().is_cold;
+    let j3 = js.journal.last().unwrap().len();
+    out += &format!("[load_account preloaded first={} journal={}{}] ", p1, j3, if !p1 && j3 == j2 { "" } else { " MISMATCH" });
+    let missing = address!("00000000000000000000000000000000000000aa");
+    let m1 = js.load_account(missing, &mut db).unwrap().is_cold;
+    let m2 = js.load_account(missing, &mut db).unwrap().is_cold;
+    out += &format!("[load_account missing first={} second={}{}] ", m1, m2, if m1 && !m2 { "" } else { " MISMATCH" });
+    // a cold mark set by a revert is reported and cleared once
+    js.state.get_mut(&CALLER).unwrap().mark_cold();
+    let r1 = js.load_account(CALLER, &mut db).unwrap().is_cold;
+    let r2 = js.load_account(CALLER, &mut db).unwrap().is_cold;
+    out += &format!("[load_account re-cooled first={} second={}{}] ", r1, r2, if r1 && !r2 { "" } else { " MISMATCH" });
+    // ---- sload
+    let j0 = js.journal.last().unwrap().len();
+    let s1 = js.sload(CALLER, U256::from(1), &mut db).unwrap();
+    let j1 = js.journal.last().unwrap().len();
+    let s2 = js.sload(CALLER, U256::from(1), &mut db).unwrap();
+    let j2 = js.journal.last().unwrap().len();
+    let ok = s1.is_cold && !s2.is_cold && s1.data == U256::from(7) && s2.data == U256::from(7) && j1 == j0 + 1 && j2 == j1
+        && matches!(js.journal.last().unwrap()[j0], revm::JournalEntry::StorageWarmed { address, key } if address == CALLER && key == U256::from(1));
+    out += &format!("[sload first=({},{}) second=({},{}) journal={}->{}->{}{}] ", s1.data, s1.is_cold, s2.data, s2.is_cold, j0, j1, j2, if ok { "" } else { " MISMATCH" });
+    // changed present value is what a repeated read returns
+    js.state.get_mut(&CALLER).unwrap().storage.get_mut(&U256::from(1)).unwrap().present_value = U256::from(9);
+    let s3 = js.sload(CALLER, U256::from(1), &mut db).unwrap();
+    out += &format!("[sload present value got={}{}] ", s3.data, if s3.data == U256::from(9) && !s3.is_cold { "" } else { " MISMATCH" });
+    js.state.get_mut(&CALLER).unwrap().storage.get_mut(&U256::from(1)).unwrap().mark_cold();
+    let s4 = js.sload(CALLER, U256::from(1), &mut db).unwrap();
+    let s5 = js.sload(CALLER, U256::from(1), &mut db).unwrap();
+    out += &format!("[sload re-cooled first={} second={}{}] ", s4.is_cold, s5.is_cold, if s4.is_cold && !s5.is_cold { "" } else { " MISMATCH" });
+    // an account created in this transaction reads zero without asking the database
+    js.state.get_mut(&CALLER).unwrap().mark_created();
+    let jc0 = js.journal.last().unwrap().len();
+    let s6 = js.sload(CALLER, U256::from(2), &mut db).unwrap();
+    db.insert_account_storage(CALLER, U256::from(3), U256::from(8)).unwrap();
+    let s7 = js.sload(CALLER, U256::from(3), &mut db).unwrap();
+    let jc1 = js.journal.last().unwrap().len();
+    let s8 = js.sload(CALLER, U256::from(3), &mut db).unwrap();
+    let okc = s6.data.is_zero() && s6.is_cold && s7.data.is_zero() && s7.is_cold && !s8.is_cold && jc1 == jc0 + 2;
+    out += &format!("[sload created slot2=({},{}) slot3=({},{}) again={} journal={}->{}{}] ", s6.data, s6.is_cold, s7.data, s7.is_cold, s8.is_cold, jc0, jc1, if okc { "" } else { " MISMATCH" });
+    // ---- load_accounts: what is pre-warmed per fork
+    for (spec, want_cb, want_bh) in [(SpecId::LONDON, false, false), (SpecId::MERGE, false, false), (SpecId::SHANGHAI, true, false), (SpecId::CANCUN, true, false), (SpecId::PRAGUE, true, true)] {
+        let mut db = CacheDB::new(EmptyDB::default());
+        db.insert_account_info(CALLER, AccountInfo { nonce: 0, balance: U256::from(1_000_000_000u64), code_hash: B256::default(), code: None });
+        let coinbase = address!("00000000000000000000000000000000000000cb");
+        let mut evm = Evm::builder().with_db(db).with_spec_id(spec).modify_env(|e: &mut Box<Env>| {
+            e.block.coinbase = coinbase;
+            e.tx.caller = CALLER;
+            e.tx.transact_to = TxKind::Call(TARGET);
+            e.tx.gas_limit = 100_000;
+        }).build();
+        let h = evm.handler.pre_execution().load_accounts.clone();
+        let r = h(&mut evm.context);
+        let set = &evm.context.evm.journaled_state.warm_preloaded_addresses;
+        let (cb, bh) = (set.contains(&coinbase), set.contains(&revm::primitives::BLOCKHASH_STORAGE_ADDRESS));
+        let others = set.len() - cb as usize - bh as usize;
+        out += &format!("[load_accounts {:?} ok={} coinbase={} blockhash={} others={}{}] ", spec, r.is_ok(), cb, bh, others, if cb == want_cb && bh == want_bh && others == 0 && r.is_ok() { "" } else { " MISMATCH" });
+    }
+    out
+}
